@@ -85,7 +85,8 @@ pub fn run_line(line: &str) -> String {
         return "bad-line".to_string();
     }
     let (a, b, p) = (hex(t[1]), hex(t[2]), hex(t[3]));
-    let big_count = (t[0] == "shl" || t[0] == "shr") && b.bits() > 20;
+    // shifts by large counts and powers with large exponents run under the watchdog
+    let big_count = (t[0] == "shl" || t[0] == "shr" || t[0] == "pow") && b.bits() > 20;
     let r = if big_count { watched(t[0], &a, &b, &p) } else { guarded_op(t[0], &a, &b, &p) };
     format!("{} {} {} {} = {}", t[0], t[1], t[2], t[3], r)
 }
